@@ -57,7 +57,7 @@ def extra(r):
     return [("kf/D10-pushed-twice-into-one-trace", D10_PUSHED, ["no_panic", "copies"]),
             # a captured set that holds only events / properties recorded with no local span open (and one that also
             # holds a span): they attach to every span the set is pushed to
-            ("orphans/span-less-set", ORPHANS, ["no_panic", "attachments", "tree", "exactly_once"])]
+            ("orphans/span-less-set", ORPHANS, ["no_panic", "attachments_owner", "tree", "exactly_once"])]
 
 
 # a set collected while spans recorded in it are still open: the open spans are closed at the collection time,
@@ -119,7 +119,7 @@ def run(v, tier, seed, replay):
             v.coverage = {"obligations": 1, "discharged": 1, "checker_cmd": "replay", "trusted_base": C.TRUSTED_BASE, "evaluations": 1, "distinct_nontrivial": 1,
                           "rule": "replay of one timed program", "samples": [{"program": lines[:30]}]}
             return
-    seqcheck.run(v, tier, seed, replay, "C17", ["C17"], tree_oracles=["no_panic", "copies", "tree", "exactly_once", "attachments"], knobs=knobs,
+    seqcheck.run(v, tier, seed, replay, "C17", ["C17"], tree_oracles=["no_panic", "copies", "tree", "exactly_once", "attachments_owner"], knobs=knobs,
                  n_quick=(2100, 300), n_thorough=(80000, 5000), known=c06.known, extra_cases=extra,
                  nontrivial=lambda lines, tr: any(l.split()[1] in ("pushChild", "toRecords") for l in lines),
                  assumptions=["absolute times of to_span_records and of delivered copies use different clock anchors; durations are compared with a 2 µs tolerance"])
